@@ -88,3 +88,289 @@ def run(ctx: Ctx):
     ctx.copy_coq("C03")
     status = ctx.coq_build()
     ctx.register_props(status)
+
+
+# ======================================================================== correspondence + search
+import grid.rtransform as RT  # noqa: E402
+
+
+def dy(rng, lo, hi, bits=10):
+    """random dyadic in (lo, hi) with `bits` fractional bits (exact in binary64 and in Coq)."""
+    q = 1 << bits
+    a, b = math.ceil(lo * q + 1e-9), math.floor(hi * q - 1e-9)
+    return rng.randint(a, b) / q
+
+
+def sample_params(cname, rng):
+    """admissible parameters (as python floats that are exact dyadics) + interior domain interval for x."""
+    if cname == "BeckeRTransform":
+        p = dict(rmin=rng.choice([0.0, 0.125, 1.5]), R=dy(rng, 0.2, 4))
+        return p, (-1, 1), {}
+    if cname == "LinearFiniteRTransform":
+        rmin = dy(rng, -2, 2)
+        return dict(rmin=rmin, rmax=rmin + dy(rng, 0.25, 8)), (-1, 1), {}
+    if cname == "IdentityRTransform":
+        return {}, (0, 20), {}
+    if cname in ("LinearInfiniteRTransform",):
+        rmin = dy(rng, 0, 2)
+        return dict(rmin=rmin, rmax=rmin + dy(rng, 0.5, 20), b=dy(rng, 0.5, 30)), (0, 30), {}
+    if cname in ("ExpRTransform", "PowerRTransform"):
+        rmin = dy(rng, 0.01, 1)
+        return dict(rmin=rmin, rmax=rmin + dy(rng, 1, 30), b=dy(rng, 0.5, 30)), (0, 30), {}
+    if cname == "HyperbolicRTransform":
+        a, b = dy(rng, 0.1, 4), dy(rng, 0.01, 0.5)
+        return dict(a=a, b=b), (0, 0.9 / b), {}
+    if cname == "MultiExpRTransform":
+        return dict(rmin=rng.choice([0.0, 0.125, 1.5]), R=dy(rng, 0.2, 4)), (-1, 1), {}
+    if cname == "KnowlesRTransform":
+        return dict(rmin=rng.choice([0.0, 0.125]), R=dy(rng, 0.2, 4), k=rng.choice([1, 1.5, 2, 2.5, 3, 7])), (-1, 1), {}
+    if cname == "HandyRTransform":
+        return dict(rmin=rng.choice([0.0, 0.125]), R=dy(rng, 0.2, 4), m=rng.choice([1, 1.5, 2, 2.5, 3, 5])), (-1, 1), {}
+    if cname == "HandyModRTransform":
+        m = rng.choice([1, 1.5, 2, 2.5, 3, 4])
+        rmin = rng.choice([0.0, 0.125])
+        return dict(rmin=rmin, rmax=rmin + 2 ** m + dy(rng, 0.5, 30), m=m), (-1, 1), {}
+    raise KeyError(cname)
+
+
+def make_tf(cname, p, trim=True):
+    cls = getattr(RT, cname)
+    kw = dict(p)
+    if "trim_inf" in cls.__init__.__code__.co_varnames:
+        kw["trim_inf"] = trim
+    return cls(**kw)
+
+
+def coq_params(sigs, cname, p):
+    return " ".join(r_lit(p[a.lstrip("_")]) for a in sigs[cname])
+
+
+def call_impl(tf, meth, x):
+    with warnings.catch_warnings():
+        warnings.simplefilter("ignore")
+        with np.errstate(all="ignore"):
+            v = getattr(tf, meth)(np.array([x], dtype=float))
+    v = np.asarray(v, dtype=float).ravel()
+    return float(v[0])
+
+
+def fd(f, x, h):
+    """6th-order central difference."""
+    return (45 * (f(x + h) - f(x - h)) - 9 * (f(x + 2 * h) - f(x - 2 * h)) + (f(x + 3 * h) - f(x - 3 * h))) / (60 * h)
+
+
+GEN_NAMES = None
+
+
+def all_gen_names(ctx):
+    import re
+    return re.findall(r"^Definition (\w+)", (ctx.build / "C03_gen.v").read_text(), flags=re.M)
+
+
+def correspondence(ctx: Ctx, sigs):
+    names = all_gen_names(ctx)
+    hdr = ("From Coq Require Import Reals.\nFrom Coquelicot Require Import Coquelicot.\nFrom Interval Require Import Tactic.\n"
+           "From P Require Import C03_gen.\nOpen Scope R_scope.\n")
+    unfold = "cbv beta zeta delta [" + " ".join(names) + "]"
+    cases, meta = [], []
+    n_per = 4 if ctx.quick else 30
+    for cname in CLASSES:
+        for it in range(n_per):
+            p, (lo, hi), _ = sample_params(cname, ctx.rng)
+            tf = make_tf(cname, p, trim=bool(it % 2))
+            span = hi - lo
+            xs = [dy(ctx.rng, lo + span / 64, hi - span / 64, 12) for _ in range(2)]
+            if it == 0:  # close to the ends of the domain
+                xs.append(lo + span * 2.0 ** -20)
+                if hi < 1e6:
+                    xs.append(hi - span * 2.0 ** -20)
+            for x in xs:
+                for m in METHODS:
+                    arg = x
+                    if m == "inverse":
+                        arg = call_impl(tf, "transform", x)  # a codomain point (exact float)
+                        if "rmin" in p and not arg > p["rmin"] + 1e-9:
+                            continue  # rounded onto the codomain end: outside the interior the theorems are about
+                    y = call_impl(tf, m, arg)
+                    if not math.isfinite(y):
+                        continue
+                    tol = Fraction(1, 10 ** 9) * (1 + abs(Fraction(y)))
+                    cp = coq_params(sigs, cname, p)
+                    goal = f"Rabs ({short(cname)}_{m} {cp} {r_lit(arg)} - {r_lit(y)}) <= {r_lit(tol)}"
+                    cases.append((goal, f"{unfold}; interval with (i_prec 90)"))
+                    meta.append((cname, m, dict(p), arg, y))
+                    ctx.case((cname, m, tuple(p.items()), arg))
+                    ctx.count(f"{short(cname)}.{m}")
+                # generic inverse-derivative formulas through the base class and InverseRTransform
+                r = call_impl(tf, "transform", x)
+                itf = RT.InverseRTransform(tf)
+                cp = coq_params(sigs, cname, p)
+                fs = " ".join(f"({short(cname)}_{mm} {cp})" for mm in METHODS)
+                for bm, im in (("deriv_inverse", "deriv"), ("deriv2_inverse", "deriv2"), ("deriv3_inverse", "deriv3")):
+                    try:
+                        y = call_impl(tf, bm, r)
+                        y2 = call_impl(itf, im, r)
+                    except ZeroDivisionError:
+                        continue
+                    if not (math.isfinite(y) and math.isfinite(y2)):
+                        continue
+                    for (nm, yy) in ((f"Base_{bm}", y), (f"Inverse_{im}", y2)):
+                        tol = Fraction(1, 10 ** 8) * (1 + abs(Fraction(yy)))
+                        goal = f"Rabs ({nm} {fs} {r_lit(r)} - {r_lit(yy)}) <= {r_lit(tol)}"
+                        cases.append((goal, f"{unfold}; interval with (i_prec 90)"))
+                        meta.append((cname, nm, dict(p), r, yy))
+                        ctx.case((cname, nm, tuple(p.items()), r))
+                        ctx.count(nm)
+    bad = ctx.coq_tactic_cases("C03_corr", hdr, cases, shard=max(20, len(cases) // 16 + 1), timeout=1500)
+    for i in bad:
+        cname, m, p, arg, y = meta[i]
+        ctx.fail(f"corr_{short(cname)}_{m}", f"corr:{cname}.{m}:{p}:{arg}", y,
+                 f"generated model of {cname}.{m} does not enclose the implementation's value {y} at params {p}, argument {arg}",
+                 {"reproduce": f"{cname}(**{p}).{m}(np.array([{arg}]))", "goal": cases[i][0][:400]}, found_input=False)
+    if meta:
+        ctx.sample({"class": meta[0][0], "method": meta[0][1], "params": meta[0][2], "arg": meta[0][3], "impl": meta[0][4]})
+        ctx.sample({"class": meta[-1][0], "method": meta[-1][1], "params": meta[-1][2], "arg": meta[-1][3], "impl": meta[-1][4]})
+    return len(cases)
+
+
+# canonical corpus (runs first, fixed order): inputs on which defects were found
+CORPUS = [("HandyModRTransform", dict(rmin=0.0, rmax=10.0, m=3), 0.0)]
+
+KIND_OF = {"inv_tf": "inverse(transform(x)) = x", "tf_inv": "transform(inverse(r)) = r", "d1": "deriv", "d2": "deriv2", "d3": "deriv3",
+           "id1": "deriv_inverse", "id2": "deriv2_inverse", "id3": "deriv3_inverse", "mono": "monotone", "ends": "end points"}
+
+
+def property_checks(tf, cname, p, x, lo, hi):
+    """Evaluate the property's own oracle on the implementation at one interior point; yields (kind, observed, expected)."""
+    span = min(hi - lo, 4.0)
+    h = span * 2.0 ** -9
+    if x - 3 * h <= lo or x + 3 * h >= hi:
+        return
+    t = lambda m: (lambda z: call_impl(tf, m, z))  # noqa: E731
+    r = t("transform")(x)
+    scale = lambda *v: 1e-6 * max(1.0, *[abs(a) for a in v])  # noqa: E731
+    xi = t("inverse")(r)
+    if abs(xi - x) > 1e-8 * max(1, abs(x)):
+        yield "inv_tf", xi, x
+    for kind, f, df in (("d1", "transform", "deriv"), ("d2", "deriv", "deriv2"), ("d3", "deriv2", "deriv3")):
+        num, ana = fd(t(f), x, h), t(df)(x)
+        if abs(num - ana) > scale(num, ana):
+            yield kind, ana, num
+    d1, d2, d3 = t("deriv")(x), t("deriv2")(x), t("deriv3")(x)
+    # inverse derivatives: the inverse-function-theorem values computed from the implementation's own d1, d2, d3 at x = inverse(r)
+    # (finite differences of the inverse are too ill-conditioned near the domain ends to serve as an oracle)
+    if d1 != 0 and abs(xi - x) <= 1e-8 * max(1, abs(x)):
+        xr = xi
+        e1, e2, e3 = t("deriv")(xr), t("deriv2")(xr), t("deriv3")(xr)
+        for kind, df, exp in (("id1", "deriv_inverse", 1 / e1), ("id2", "deriv2_inverse", -e2 / e1 ** 3),
+                              ("id3", "deriv3_inverse", (3 * e2 ** 2 - e1 * e3) / e1 ** 5)):
+            for obj, meth in ((tf, df), (RT.InverseRTransform(tf), df.replace("_inverse", ""))):
+                ana = call_impl(obj, meth, r)
+                if math.isfinite(exp) and abs(ana - exp) > 1e-9 * max(1.0, abs(exp)):
+                    yield kind, ana, exp
+    decreasing = cname == "MultiExpRTransform"
+    if (d1 < 0) != decreasing or d1 == 0:
+        yield "mono", d1, ("negative" if decreasing else "positive")
+
+
+def endpoint_checks(cname, p):
+    out = []
+    inf_classes = {"BeckeRTransform": 1.0, "MultiExpRTransform": -1.0, "KnowlesRTransform": 1.0, "HandyRTransform": 1.0}
+    for trim in (True, False):
+        tf = make_tf(cname, p, trim)
+        ends = []
+        if cname in ("BeckeRTransform", "KnowlesRTransform", "HandyRTransform"):
+            ends = [(-1.0, p["rmin"])]
+        elif cname == "MultiExpRTransform":
+            ends = [(1.0, p["rmin"])]
+        elif cname in ("LinearFiniteRTransform", "HandyModRTransform"):
+            ends = [(-1.0, p["rmin"]), (1.0, p["rmax"])]
+        elif cname in ("IdentityRTransform", "HyperbolicRTransform"):
+            ends = [(0.0, 0.0)]
+        elif cname in ("LinearInfiniteRTransform", "ExpRTransform", "PowerRTransform"):
+            ends = [(0.0, p["rmin"]), (p["b"], p["rmax"])]
+        for x, exp in ends:
+            v = call_impl(tf, "transform", x)
+            if not abs(v - exp) <= 1e-9 * max(1.0, abs(exp)):
+                out.append((f"ends:x={x}:trim={trim}", v, exp))
+        if cname in inf_classes:
+            v = call_impl(tf, "transform", inf_classes[cname])
+            exp = 1e16 if trim else float("inf")
+            if v != exp:
+                out.append((f"ends:x={inf_classes[cname]}:trim={trim}", v, exp))
+        if not hasattr(tf, "trim_inf"):
+            break
+    return out
+
+
+def sweep(ctx: Ctx):
+    """Property oracle on the implementation. Per (class, kind) only the canonical first failing input is reported."""
+    first: dict = {}
+    npts = 0
+    plan = [(c, p, x) for c, p, x in CORPUS]
+    for cname in CLASSES:
+        for _ in range(6 if ctx.quick else 60):
+            p, (lo, hi), _ = sample_params(cname, ctx.rng)
+            span = hi - lo
+            for _ in range(3):
+                plan.append((cname, p, dy(ctx.rng, lo + span / 16, hi - span / 16, 8)))
+    for cname, p, x in plan:
+        _, (lo, hi), _ = sample_params(cname, __import__("random").Random(0))
+        if cname == "HyperbolicRTransform":
+            lo, hi = 0, 0.9 / p["b"]
+        tf = make_tf(cname, p, True)
+        npts += 1
+        for kind, obs, exp in property_checks(tf, cname, p, x, lo, hi):
+            first.setdefault((cname, kind), (p, x, obs, exp))
+    seen_ends = set()
+    for cname, p, x in plan:
+        if cname in seen_ends:
+            continue
+        seen_ends.add(cname)
+        for kind, obs, exp in endpoint_checks(cname, p):
+            first.setdefault((cname, "ends"), (p, kind, obs, exp))
+    ctx.cov["sweep_points"] = npts
+    return first
+
+
+def run(ctx: Ctx):  # noqa: F811
+    sigs = gen(ctx)
+    ctx.copy_coq("C03")
+    status = ctx.coq_build()
+    ctx.register_props(status)
+    failures = sweep(ctx)
+    # a property theorem that no longer checks: attach the concrete failing input of the same (class, kind) if the sweep has one
+    used = set()
+    for name, ob in list(ctx.obligations.items()):
+        if ob["status"] == "discharged":
+            continue
+        parts = name.split("_")  # C03_<Class>_<kind...>
+        cls = parts[1] + "RTransform" if len(parts) > 2 else ""
+        kind = "_".join(parts[2:])
+        hit = failures.get((cls, kind))
+        if hit:
+            p, x, obs, exp = hit
+            used.add((cls, kind))
+            extra = ""
+            if status.get("C03_refuted_handymod_d3.v") and name == "C03_HandyMod_d3":
+                extra = " (Coq: HandyMod_d3_refuted_lemma proves that the generated deriv3 is not the derivative of deriv2)"
+            ctx.fail(name, f"{cls}.{KIND_OF.get(kind, kind)}:{p}:x={x}", round(float(obs), 9),
+                     f"{cls}({p}): {KIND_OF.get(kind, kind)} at x={x} is {obs}, the true value is {exp}{extra}",
+                     {"reproduce": f"tf={cls}(**{p}); tf.{KIND_OF.get(kind, kind)}(np.array([{x}]))  # vs finite differences", "expected": exp})
+    for (cls, kind), (p, x, obs, exp) in failures.items():
+        if (cls, kind) in used:
+            continue
+        ctx.fail(f"sweep_{short(cls)}_{kind}", f"{cls}.{KIND_OF.get(kind, kind)}:{p}:x={x}", round(float(obs), 9) if isinstance(obs, float) else obs,
+                 f"{cls}({p}): {KIND_OF.get(kind, kind)} at x={x} is {obs}, expected {exp}",
+                 {"reproduce": f"tf={cls}(**{p}); tf.{KIND_OF.get(kind, kind)}(np.array([{x}]))", "expected": exp})
+    if status.get("C03_gen.v"):
+        correspondence(ctx, sigs)
+    ctx.cov["rule"] = ("interval correspondence: random admissible dyadic parameters (k, m in {1,1.5,2,2.5,3,..}) and interior/near-end points per class "
+                       "and method, the generated Coq term must enclose the implementation's float; sweep: finite-difference / round-trip / monotonicity / "
+                       "end-point oracle on the implementation; distinct = (class, method, params, argument)")
+    ctx.trusted += ["py2coq/real translator (validated by interval enclosures each run)", "interval tactic (Interval 4.6, i_prec 90)",
+                    "IEEE rounding of the implementation assumed below 1e-9 relative at sampled points",
+                    "trim_inf/_convert_inf modelled as identity on finite values; end-point branch checked on the implementation only",
+                    "set_maximum_parameter_b state (inferred b) is C19's model; here b is a parameter"]
+    ctx.assumptions += ["HandyMod theorems carry the hypothesis HandyMod_D <> 0 (resp. 2^m - 1 < rmax - rmin for monotonicity/inverse)",
+                        "Rpower-based formulas are stated on the interior of the domain (positive bases)"]
